@@ -15,7 +15,7 @@ func init() {
 		ID: "C11",
 		Explanation: `R11.1 block ranges name library blocks: every OpBlockRange built in ComputeDiff takes FileIndex and BlockIndex from the block findUniqueHash returned and BlockSpan 1; the only other writer of BlockSpan is the merge in enqueue, which is control-dependent on equal file and contiguity; ` +
 			`R11.2 the pending range is flushed before any data op (in enqueue) and by a deferred closure on every return; R11.3 every operation leaves ComputeDiff through the cleaner returned by makeOperationCleaner, which forwards an empty data op only as the first op; ` +
-			`R11.4 every data-op payload is bounded by MaxDataOp by construction: its slice bounds are the pair the size-limit flush controls, a constant extent, or dominated by an explicit bound check; R01.1 (shared) match acceptance incl. empty windows never match. ` +
+			`R11.4 every data-op payload is bounded by MaxDataOp by construction: its slice bounds are the pair the size-limit flush controls, a constant extent, or dominated by an explicit bound check; R11.5 every assignment to the start of the hash window (the low bound of βhash's argument) is followed, before the next such assignment or a return, by an assignment to the end of the pending-data window (the pair R11.4 identifies); R01.1 (shared) match acceptance incl. empty windows never match. ` +
 			`NOT decided: replay equality, merge completeness, wrap-around bookkeeping; the exhaustive small-alphabet enumeration the property describes belongs to a dynamic family.`,
 		Run: runC11,
 	})
@@ -32,6 +32,7 @@ func runC11(c *core.Ctx) {
 	c.Rule("R11.1", "block ranges name library blocks; merge guarded by contiguity")
 	c.Rule("R11.2", "pending range flushed before data and at the end")
 	c.Rule("R11.3", "cleaner is on every emit path")
+	c.Rule("R11.5", "the pending data window follows the hash window")
 	c.Rule("R11.4", "data-op payloads are bounded by MaxDataOp by construction")
 	c.Rule("R01.1", "match acceptance (shared)")
 	cd := c.P.Fn("wsync", "Context.ComputeDiff")
@@ -276,10 +277,35 @@ func runC11(c *core.Ctx) {
 	}
 	c.Floor("R11.3", "emits inside ComputeDiff", nEmit, 1)
 	// cleaner: forwarding an empty data op requires sendCount == 0
-	if len(mk.AnonFuncs) != 1 {
+	// the cleaner is whatever function value makeOperationCleaner returns: a literal, or a method of a small state struct
+	var cleaners []*ssa.Function
+	for _, rs := range core.Returns(mk, 0) {
+		for _, o := range core.Origins(rs.Val) {
+			mc, ok := o.(*ssa.MakeClosure)
+			if !ok {
+				continue
+			}
+			w, ok := mc.Fn.(*ssa.Function)
+			if !ok {
+				continue
+			}
+			if w.Synthetic != "" {
+				core.Instrs(w, func(x ssa.Instruction) {
+					if cc, ok := x.(ssa.CallInstruction); ok {
+						if sc := cc.Common().StaticCallee(); sc != nil && len(sc.Blocks) > 0 {
+							cleaners = append(cleaners, sc)
+						}
+					}
+				})
+			} else {
+				cleaners = append(cleaners, w)
+			}
+		}
+	}
+	if len(cleaners) != 1 {
 		c.Missing("R11.3", core.FnName(mk), "cleaner closure not found")
 	} else {
-		cl := mk.AnonFuncs[0]
+		cl := cleaners[0]
 		// the discard return: nil return without forwarding; must be exactly when sendCount > 0 && type == data && len == 0
 		fwd := firstInstr(cl, func(in ssa.Instruction) bool {
 			c2, ok := in.(*ssa.Call)
@@ -294,27 +320,27 @@ func runC11(c *core.Ctx) {
 				if core.FindPath(cl, nil, isInstr(rs.Ret), isInstr(fwd)) == nil {
 					continue // passes the forward
 				}
+				isLen := func(v ssa.Value) bool {
+					lc, ok := v.(*ssa.Call)
+					if !ok {
+						return false
+					}
+					b, ok := lc.Call.Value.(*ssa.Builtin)
+					return ok && b.Name() == "len"
+				}
+				isCounter := func(v ssa.Value) bool { // a load of the counter: a captured variable or a field of the state struct
+					ld, ok := v.(*ssa.UnOp)
+					return ok && ld.Op == token.MUL && !isField("Type")(v)
+				}
 				for _, g := range core.Guards(rs.Ret) {
-					bo, ok := g.Cond.(*ssa.BinOp)
-					if !ok || !g.Val {
-						continue
+					if relHolds(g, token.EQL, isLen, isConstInt(0)) {
+						lenZero = true
 					}
-					if lc, ok := bo.X.(*ssa.Call); ok {
-						if b, ok := lc.Call.Value.(*ssa.Builtin); ok && b.Name() == "len" && bo.Op == token.EQL {
-							if z, isC := core.ConstInt(bo.Y); isC && z == 0 {
-								lenZero = true
-							}
-						}
+					if relHolds(g, token.EQL, isField("Type"), isConstInt(opData)) {
+						isData = true
 					}
-					if _, n, ok := core.FieldOf(bo.X); ok && n == "Type" && bo.Op == token.EQL {
-						if k, isC := core.ConstInt(bo.Y); isC && k == opData {
-							isData = true
-						}
-					}
-					if ld, ok := bo.X.(*ssa.UnOp); ok && ld.Op == token.MUL && bo.Op == token.GTR {
-						if z, isC := core.ConstInt(bo.Y); isC && z == 0 {
-							notFirst = true
-						}
+					if relHolds(g, token.GTR, isCounter, isConstInt(0)) || relHolds(g, token.NEQ, isCounter, isConstInt(0)) || relHolds(g, token.GEQ, isCounter, isConstInt(1)) {
+						notFirst = true
 					}
 				}
 			}
@@ -395,6 +421,58 @@ func runC11(c *core.Ctx) {
 			"this data op's payload is sliced with bounds that neither are the pair the MaxDataOp flush controls, nor have a constant extent, nor are checked against MaxDataOp: the op can exceed the 4MiB limit (the final flush of a file ending in a fresh run of more than 4MiB does)")
 	}
 	c.Floor("R11.4", "OpData literals", nD, 1)
+
+	// ---- R11.5: the pending-data window ends where the hash window begins. Whenever the scan moves the start of
+	// the hash window, the end of the pending data follows before the window is moved again (or the function
+	// returns): bytes the scan slid over without a match are in [data.tail, data.head) when the next flush comes.
+	if pairHi != nil {
+		dataBase, dataField, okD := core.FieldOf(pairHi)
+		var hashLow ssa.Value
+		for _, f := range core.WithAnons(cd) {
+			core.Instrs(f, func(in ssa.Instruction) {
+				if cl, ok := in.(*ssa.Call); ok && core.CalleeName(cl) == "wsync.βhash" && len(cl.Call.Args) == 1 {
+					if sl, ok := cl.Call.Args[0].(*ssa.Slice); ok && sl.Low != nil {
+						hashLow = sl.Low
+					}
+				}
+			})
+		}
+		var hashBase ssa.Value
+		hashField := ""
+		okH := false
+		if hashLow != nil {
+			hashBase, hashField, okH = core.FieldOf(hashLow)
+		}
+		if !okD || !okH {
+			c.Missing("R11.5", core.FnName(cd), "the hash window (argument of βhash) or the pending-data window is not a pair of struct fields")
+		} else {
+			isStoreTo := func(base ssa.Value, field string) ipred {
+				root := core.CellRoot(base)
+				return func(in ssa.Instruction) bool {
+					st, ok := in.(*ssa.Store)
+					if !ok {
+						return false
+					}
+					b, n, ok := core.FieldOf(st.Addr)
+					return ok && n == field && core.CellRoot(b) == root
+				}
+			}
+			moveHash := isStoreTo(hashBase, hashField)
+			moveData := isStoreTo(dataBase, dataField)
+			nMv := 0
+			core.Instrs(cd, func(in ssa.Instruction) {
+				if !moveHash(in) {
+					return
+				}
+				nMv++
+				p := core.FindPath(cd, in, anyOf(moveHash, isReturn), moveData)
+				c.Check(p == nil, "R11.5", core.FnName(cd), "moving the hash window's start moves the pending data's end", core.InstrPos(in),
+					"every path from this assignment to the next one (or to a return) assigns the end of the pending data",
+					"the start of the hash window is moved, and can be moved again or the function can return, without the end of the pending data having followed: the bytes slid over are missing from the next data op").Path = c.P.PathStrings(p)
+			})
+			c.Floor("R11.5", "assignments to the start of the hash window", nMv, 2)
+		}
+	}
 	// buffer sized for it
 	okBuf := false
 	core.Instrs(cd, func(in ssa.Instruction) {
